@@ -169,7 +169,30 @@ impl Prop for C16 {
             uniq: 0,
             shadow: shadow.clone(),
         };
-        for _ in 0..n {
+        // one run in 24: an error burst from the device side (255 / 256 / 257 / 512 / 768 unread
+        // items: counts a narrow counter would alias to 0), then *STB?
+        let burst_at = if g.rng.chance(1, 24) { Some(g.rng.usize_below(n)) } else { None };
+        for step_no in 0..n {
+            if burst_at == Some(step_no) {
+                let reps = *g.rng.pick(&[255usize, 256, 256, 257, 512, 768]);
+                for k in 0..reps {
+                    let e = ErrSpec {
+                        code: 100 + (k % 3000) as i16,
+                        ext: None,
+                        msg: (k % 6) as u8,
+                    };
+                    shadow.queue.push(spec_obs(&e));
+                    t.steps.push(Step::Q(QOp::Push(e)));
+                }
+                let s = SendStep {
+                    ctl: 0,
+                    fmt: FmtCfg::Vec,
+                    msg: g.single(Contrib::Stb, true, vec![]),
+                    corrupt: vec![],
+                };
+                advance_shadow(&mut shadow, &root, &s);
+                t.steps.push(Step::Send(s));
+            }
             let ctl = g.rng.below(controllers as u64) as u8;
             let msg = match g.rng.weighted(&w) {
                 0 => {
